@@ -1,7 +1,9 @@
 //! Conformance harness for the TLA+ specifications in /verif/specs.
 //! Sub-commands are selected by the first argument; see /verif/check.
 mod bench;
+mod chan;
 mod clones;
+mod pool;
 mod queue;
 mod seqds;
 mod simcore;
@@ -20,6 +22,8 @@ fn main() {
         "bench" => bench::main(&args[2..]),
         "queue" => queue::main(&args[2..]),
         "clones" => clones::main(&args[2..]),
+        "chan" => chan::main(&args[2..]),
+        "pool" => pool::main(&args[2..]),
         "task" => taskeng::main(&args[2..]),
         "timecell" => timecell::main(&args[2..]),
         other => {
